@@ -148,6 +148,7 @@ Proof.
   - rewrite Hst. apply (i_tape _ _ _ I).
   - rewrite Hst. apply (i_csc _ _ _ I).
   - rewrite Hst. apply (i_csb _ _ _ I).
+  - rewrite Hst. apply (i_cse _ _ _ I).
   - rewrite Hst. apply (i_clk _ _ _ I).
   - rewrite Hst. intros e en Hn. destruct (i_clke _ _ _ I e en Hn) as (A & B). split; [exact A|]. intros sd. rewrite Hgx. apply B.
   - rewrite Hst. apply (i_roots _ _ _ I).
@@ -170,6 +171,7 @@ Proof.
     + assert (sd0 = negb t) by (destruct sd0, t; try reflexivity; contradiction). subst sd0. rewrite Hgo in Hg0. rewrite Hobjo.
       apply (i_ghost _ _ _ I (negb t) k cs0 Hg0).
   - rewrite Hst. intros e sd Hl. rewrite Hgx. apply (i_xlen _ _ _ I e sd Hl).
+  - rewrite Hst. intros e en sd He Hn. unfold Seen. rewrite Hgx. apply (i_seen _ _ _ I e en sd He Hn).
 Qed.
 
 (* ------------------------------------------------------------------ bookkeeping lemmas *)
